@@ -140,6 +140,35 @@ pub fn with_uniform_measure(s: &Shape, m: f64) -> Shape {
     build_from_parts(d.ty, &input, false)
 }
 
+/// The same shape with a few vertices whose X and/or Y are NaN (rebuilt through the public
+/// constructors). `mode` 0: x and y both NaN, 1: x only, 2: y only.
+pub fn with_nan_xy(s: &Shape, every: usize, mode: u8) -> Shape {
+    use crate::dump::Dump;
+    let d = s.d();
+    let nan = f64::NAN.to_bits();
+    let mut k = 0usize;
+    let input: Vec<(i32, Vec<V>)> = d
+        .parts
+        .iter()
+        .enumerate()
+        .map(|(i, p)| {
+            let pts = p
+                .iter()
+                .map(|v| {
+                    k += 1;
+                    if k % every.max(1) == 0 {
+                        [if mode != 2 { nan } else { v[0] }, if mode != 1 { nan } else { v[1] }, v[2], v[3]]
+                    } else {
+                        *v
+                    }
+                })
+                .collect();
+            (d.kinds.get(i).copied().unwrap_or(0), pts)
+        })
+        .collect();
+    build_from_parts(d.ty, &input, false)
+}
+
 pub fn write_one<W: Write + Seek>(w: &mut ShapeWriter<W>, s: &Shape) -> Result<(), Error> {
     with_concrete!(s, x => w.write_shape(x))
 }
